@@ -88,7 +88,7 @@ def level_pre(sch, li, vp, rec, vw):
     if li.kind == "message":
         hs = sch.header.size
         pre.append(ASSUME("%d <= sbv_n" % hs))
-        pre.append(ASSUME("%s >= %dUL && %d + %s <= sbv_n" % (wbl, L.block_length, hs, wbl)))
+        pre.append(ASSUME("%s >= %dUL && %s <= sbv_n && %d + %s <= sbv_n" % (wbl, L.block_length, wbl, hs, wbl)))  # second conjunct: no wrap of HS + wire blockLength for 64-bit header fields
         lstart_off = "%d" % hs
     else:
         pre.append(ASSUME("%s >= %dUL && %s <= sbv_n" % (wbl, L.block_length, wbl)))
@@ -109,6 +109,8 @@ def cursor_contracts(cs, tier):
         for kind in ("plain", "dm", "init", "idm"):
             if tier != "thorough" and cs.name.endswith("_be") and kind != "plain":
                 continue  # quick tier: the byte-order twin of a schema is traversed with the plain cursor only
+            if tier != "thorough" and kind in ("dm", "idm") and sum(1 for _, m_ in cm if m_["mkind"] == "group") >= 2:
+                continue  # quick tier: levels with several flat groups (chained products) keep the plain and init traversals
             f = u.root("r_%s_cur_%s" % (li.ident, kind))
             vp = f.p[0]
             rec = f.params[0]["rec"]
